@@ -77,6 +77,23 @@ def jname(job) -> list:
     return list(getattr(job, "_vpath", ("?",)))
 
 
+def _call_in_thread(func, args, kwargs):
+    box: dict = {}
+
+    def go():
+        try:
+            box["r"] = func(*args, **kwargs)
+        except BaseException as e:  # noqa
+            box["e"] = e
+
+    t = threading.Thread(target=go)
+    t.start()
+    t.join()
+    if "e" in box:
+        raise box["e"]
+    return box["r"]
+
+
 class SimQueue:
     def __init__(self, driver: "Driver"):
         self.d = driver
@@ -193,7 +210,12 @@ class Driver:
         key = (job.task.fullname, repr(args), repr(sorted(kwargs.items())))
         self.calls[key] = self.calls.get(key, 0) + 1
         try:
-            result = job.task.func(*args, **kwargs)
+            if job.task.fullname == "redun.subrun_root_task":
+                # a sub-scheduler registers itself as the thread's current scheduler and unregisters
+                # at the end: run it in its own thread, as every real executor does
+                result = _call_in_thread(job.task.func, args, kwargs)
+            else:
+                result = job.task.func(*args, **kwargs)
             if job.task.is_async():
                 # async task functions return a coroutine: run it to completion here (the library
                 # tasks used under the controlled loop do not await redun expressions)
